@@ -30,10 +30,14 @@ func (o *Object) Copy() Node {
 		fields[i] = f.Copy()
 	}
 	return &Object{
-		Nullable:     o.Nullable,
-		Path:         o.Path,
-		Fields:       fields,
-		Unresolvable: o.Unresolvable,
+		Nullable:          o.Nullable,
+		Path:              o.Path,
+		Fields:            fields,
+		Unresolvable:      o.Unresolvable,
+		PossibleTypes:     o.PossibleTypes,
+		SourceName:        o.SourceName,
+		TypeName:          o.TypeName,
+		InaccessibleTypes: o.InaccessibleTypes,
 	}
 }
 
